@@ -283,7 +283,10 @@ impl Walrus {
                     0
                 };
                 persisted_tail = Some((active_block.id, known_off));
-                if checkpoint && known_off == 0 {
+                // An empty block is not rebuilt at startup (and is retired, not chained, when it
+                // is sealed): a position naming it would dangle after a restart. The position
+                // persisted so far still denotes "everything sealed is consumed".
+                if checkpoint && known_off == 0 && written > 0 {
                     if self.should_persist(&mut info, true) {
                         if let Ok(mut idx_guard) = self.read_offset_index.write() {
                             let _ =
